@@ -194,7 +194,7 @@ MUTANTS = [
      "edits": [("src/subdevice/configuration.rs", "let len = pdo.bit_len.checked_mul(oversampling);", "let len = Some(pdo.bit_len * oversampling);")]},
     # ---------------- C16 ----------------
     {"id": "c16-assert-emergency", "property": "C16", "expect": "C16.np|Coe::mailbox_write_read",
-     "edits": [("src/mailbox/coe/mod.rs", "        if headers.coe_header.service == CoeService::Emergency {", "        assert_ne!(headers.coe_header.service, CoeService::Emergency);\n\n        if headers.coe_header.service == CoeService::Emergency {")]},
+     "edits": [("src/mailbox/coe/mod.rs", "        if service_headers.coe_header.service == CoeService::Emergency {", "        assert_ne!(service_headers.coe_header.service, CoeService::Emergency);\n\n        if service_headers.coe_header.service == CoeService::Emergency {")]},
     {"id": "c16-sdo-info-length", "property": "C16", "expect": "C16.np|Coe::send_sdo_info_service",
      "edits": [("src/mailbox/coe/mod.rs", "buf.extend_from_slice(response.get(..length).ok_or(Error::Internal)?)", "buf.extend_from_slice(&response[..length])")]},
     {"id": "c16-segment-minus-3", "property": "C16", "expect": "C16.np|Coe::sdo_read",
@@ -387,7 +387,7 @@ MUTANTS = [
             }
         }
 
-        Ok(TxRxResponse {
+        TxRxResponse {
             working_counter: lrw_wkc_sum,
             subdevice_states,
             extra: (),""", """                total_bytes_sent += bytes_in_this_chunk;
@@ -404,7 +404,7 @@ MUTANTS = [
             }
         }
 
-        Ok(TxRxResponse {
+        TxRxResponse {
             working_counter: lrw_wkc_sum,
             subdevice_states,
             extra: (),""")]},
@@ -485,7 +485,7 @@ MUTANTS = [
     {"id": "c12-no-clamp", "property": "C12", "expect": "C12.read|clamped-destination",
      "edits": [("src/eeprom/mod.rs", "            .get_mut(0..requested_read_len.min(max_read))", "            .get_mut(0..requested_read_len)")]},
     {"id": "c12-identity-word", "property": "C12", "expect": "C12.addr|SubDeviceEeprom::identity",
-     "edits": [("src/subdevice/eeprom.rs", "self.start_at(0x0008, SubDeviceIdentity::PACKED_LEN as u16)", "self.start_at(0x000a, SubDeviceIdentity::PACKED_LEN as u16)")]},
+     "edits": [("src/subdevice/eeprom.rs", "self.start_at(0x0008, SubDeviceIdentity::PACKED_LEN)", "self.start_at(0x000a, SubDeviceIdentity::PACKED_LEN)")]},
     {"id": "c12-sm-enable-offset", "property": "C12", "expect": "C12.struct|SyncManager",
      "edits": [("src/eeprom/types.rs", "    #[wire(bytes = 1, post_skip_bytes = 1)]\n    pub(crate) control: sync_manager_channel::Control,\n    #[wire(bytes = 1)]\n    pub(crate) enable: SyncManagerEnable,", "    #[wire(bytes = 1)]\n    pub(crate) control: sync_manager_channel::Control,\n    #[wire(bytes = 1, post_skip_bytes = 1)]\n    pub(crate) enable: SyncManagerEnable,")], "also": ["C19"], "also_expect_none": ["C19"]},
     {"id": "c12-odd-skip-always", "property": "C12", "expect": "C12.read|odd-skip",
@@ -519,14 +519,12 @@ MUTANTS = [
 """, "")]},
     # ---------------- C15 ----------------
     {"id": "c15-abort-before-emergency", "property": "C15", "expect": "C15.triage|order-and-kinds",
-     "edits": [("src/mailbox/coe/mod.rs", "        } else if headers.command == CoeCommand::Abort {", "        } else if headers.command == CoeCommand::Abort && headers.header.mailbox_type == MailboxType::Coe {")], "skip": True},
+     "edits": [("src/mailbox/coe/mod.rs", "        if headers.command == CoeCommand::Abort {", "        if headers.command == CoeCommand::Abort && headers.header.mailbox_type == MailboxType::Coe {")], "skip": True},
     {"id": "c15-one-counter-for-segments", "property": "C15", "expect": "C15.counter|SdoSegmented::upload",
-     "edits": [("src/mailbox/coe/mod.rs", """                let mut toggle = false;
-                let mut total_len = 0usize;
+     "edits": [("src/mailbox/coe/mod.rs", """                let mut total_len = first_chunk.len();
 
                 loop {
-                    let request = SdoSegmented::upload(self.subdevice.mailbox_counter(), toggle);""", """                let mut toggle = false;
-                let mut total_len = 0usize;
+                    let request = SdoSegmented::upload(self.subdevice.mailbox_counter(), toggle);""", """                let mut total_len = first_chunk.len();
                 let segment_counter = self.subdevice.mailbox_counter();
 
                 loop {
@@ -727,7 +725,7 @@ MUTANTS = [
         let alias_bytes = new_alias.to_le_bytes();
         self.start_at(alias_word, 2).write_all(&alias_bytes).await?;""")]},
     {"id": "n-c15-swap-operands", "property": "C15", "neutral": True, "also": ["C16"],
-     "edits": [("src/mailbox/coe/mod.rs", "        } else if headers.command == CoeCommand::Abort {", "        } else if CoeCommand::Abort == headers.command {")]},
+     "edits": [("src/mailbox/coe/mod.rs", "        if headers.command == CoeCommand::Abort {", "        if CoeCommand::Abort == headers.command {")]},
     {"id": "n-c16-if-let-checked-sub", "property": "C16", "neutral": True, "also": ["C15"],
      "edits": [("src/mailbox/coe/mod.rs", """                    let mut chunk_len =
                         usize::from(headers.header.length.checked_sub(3).ok_or(Error::Internal)?);""", """                    let Some(segment_len) = headers.header.length.checked_sub(3) else {
@@ -787,7 +785,7 @@ MUTANTS = [
                 all_in_state = result.state == desired_state;"""),
                ("src/subdevice_group/mod.rs", "        debug_assert_eq!(total_checks, self.len());\n\n        Ok(true)", "        debug_assert_eq!(total_checks, self.len());\n\n        Ok(all_in_state)")]},
     {"id": "c10-skip-first-response", "property": "C10", "expect": "C10.is_state|compare-every-response",
-     "edits": [("src/subdevice_group/mod.rs", "            for pdu in received.into_pdu_iter() {\n                let pdu = pdu?;\n\n                let result = AlControl::unpack_from_slice(&pdu)?;", "            for pdu in received.into_pdu_iter().skip(1) {\n                let pdu = pdu?;\n\n                let result = AlControl::unpack_from_slice(&pdu)?;")]},
+     "edits": [("src/subdevice_group/mod.rs", "            for pdu in received.into_pdu_iter() {\n                // Each status", "            for pdu in received.into_pdu_iter().skip(1) {\n                // Each status")]},
     {"id": "c10-break-on-first-match", "property": "C10", "expect": "C10.is_state|compare-every-response",
      "edits": [("src/subdevice_group/mod.rs", """                if result.state != desired_state {
                     return Ok(false);
@@ -808,7 +806,7 @@ MUTANTS = [
     {"id": "c08-extend-on-device-flag", "property": "C08", "expect": "C08.reconf|extend-only-own-mapping",
      "edits": [("src/subdevice/configuration.rs", "        let fmmu_config = if extend_existing && fmmu_config.enable {", "        let _ = extend_existing;\n        let fmmu_config = if fmmu_config.enable {")]},
     {"id": "c08-flag-always-true", "property": "C08", "expect": "C08.reconf|extend-only-own-mapping",
-     "edits": [("src/subdevice/configuration.rs", "        let mut fmmu_configured = false;\n", "        let mut fmmu_configured = true;\n")]},
+     "edits": [("src/subdevice/configuration.rs", "                        if mapped_end == sm_config.physical_start_address =>", "                        if mapped_end <= sm_config.physical_start_address =>")]},
     {"id": "n-c08-clear-on-pre-op", "property": "C08", "neutral": True, "also": ["C10"],
      "edits": [("src/subdevice/configuration.rs", "        let fmmu_config = if extend_existing && fmmu_config.enable {", "        let _ = extend_existing;\n        let fmmu_config = if fmmu_config.enable {"),
                ("src/subdevice_group/mod.rs", """        self.transition_to(maindevice, SubDeviceState::PreOp).await
@@ -827,6 +825,79 @@ MUTANTS = [
         }
 
         Ok(self_)
+""")]},
+    {"id": "c15-segment-command-missing", "property": "C15", "expect": "C15.seg|response-commands-decodable",
+     "edits": [("src/mailbox/coe/headers.rs", "    /// Sent by the SubDevice in response to an [`UploadSegment`](CoeCommand::UploadSegment) request.\n    UploadSegmentResponse = 0x00,\n", "")]},
+    {"id": "c15-segment-trim-12", "property": "C15", "expect": "C15.seg|payload-after-own-headers", "also": ["C16"], "also_expect_none": ["C16"],
+     "edits": [("src/mailbox/coe/mod.rs", "            response.trim_front(R::PACKED_LEN.min(HeadersRaw::PACKED_LEN));", "            response.trim_front(HeadersRaw::PACKED_LEN);")]},
+    {"id": "c15-first-fragment-dropped", "property": "C15", "expect": "C15.seg|first-fragment-kept",
+     "edits": [("src/mailbox/coe/mod.rs", "                let mut total_len = first_chunk.len();", "                let mut total_len = 0usize;")]},
+    {"id": "c15-emergency-after-sdo-decode", "property": "C15", "expect": "C15.seg|emergency-before-sdo-decode",
+     "edits": [("src/mailbox/coe/mod.rs", "            response.trim_front(ServiceHeaders::PACKED_LEN);", "            response.trim_front(HeadersRaw::PACKED_LEN);")]},
+    {"id": "c07-ok-without-state-count", "property": "C07", "expect": "C07.states|SubDeviceGroup::tx_rx_dc:one-per-subdevice-or-error",
+     "edits": [("src/subdevice_group/mod.rs", """                next_cycle_wait: Duration::from_nanos(time_to_next_iter),
+            },
+        }
+        .with_state_of_each(self.len())""", """                next_cycle_wait: Duration::from_nanos(time_to_next_iter),
+            },
+        }
+        .with_state_of_each(subdevice_states_len)"""),
+               ("src/subdevice_group/mod.rs", "        let time_to_next_iter =\n", "        let subdevice_states_len = subdevice_states.len();\n\n        let time_to_next_iter =\n")]},
+    {"id": "c07-lock-before-delegating", "property": "C07", "expect": "C07.term|SubDeviceGroup::tx_rx_sync_system_time:no-reacquire-while-held", "also": ["C20"],
+     "edits": [("src/subdevice_group/mod.rs", """        if let Some(dc_ref) = maindevice.dc_ref_address() {
+            // Only taken here: `tx_rx` below takes the lock itself and it is not reentrant.
+            let mut pdi_lock = self.pdi.write();
+""", """        let mut pdi_lock = self.pdi.write();
+
+        if let Some(dc_ref) = maindevice.dc_ref_address() {
+""")]},
+    {"id": "c11-group-poll-no-wkc", "property": "C11", "expect": "C11.raw|SubDeviceGroup::is_state:wkc-before-decode", "also": ["C10"], "also_expect_none": ["C10"],
+     "edits": [("src/subdevice_group/mod.rs", "                let pdu = pdu?.wkc(1)?;\n\n                let result = AlControl::unpack_from_slice(&pdu)?;", "                let pdu = pdu?;\n\n                let result = AlControl::unpack_from_slice(&pdu)?;")]},
+    {"id": "c01-no-revalidation", "property": "C01", "expect": "C01.S4|receive_frame:marker-revalidated-after-claim", "also": ["C20"],
+     "edits": [("src/pdu_loop/pdu_rx.rs", "        if !frame.first_pdu_is(pdu_idx) {", "        if false && !frame.first_pdu_is(pdu_idx) {")]},
+    {"id": "c01-wrong-claim-dropped", "property": "C01", "expect": "C01.S4|receive_frame:marker-revalidated-after-claim", "also": ["C03"],
+     "edits": [("src/pdu_loop/pdu_rx.rs", "            frame.release_receiving_claim();\n\n", "")]},
+    {"id": "c03-mark-sent-store", "property": "C03", "expect": "C03.tx|conditional:SendableFrame::mark_sent->Sent", "also": ["C06", "C02"],
+     "edits": [("src/pdu_loop/frame_element/sendable_frame.rs", """        let _ = self
+            .inner
+            .swap_state(FrameState::Sending, FrameState::Sent);""", """        self.inner.set_state(FrameState::Sent);""")]},
+    {"id": "c12-range-rounded-to-words", "property": "C12", "expect": "C12.range|start_at:exactly-len-bytes", "also": ["C14"],
+     "edits": [("src/subdevice/eeprom.rs", "        EepromRange::new_bytes(self.provider.clone(), word_addr, len_bytes)", "        EepromRange::new_bytes(self.provider.clone(), word_addr, len_bytes / 2 * 2)")]},
+    {"id": "c12-read-raw-len-u16", "property": "C12", "expect": "C12.range|SubDevice::eeprom_read_raw:length-untruncated",
+     "edits": [("src/subdevice/mod.rs", "            .start_at(start_word, buf.len());", "            .start_at(start_word, usize::from(buf.len() as u16));")]},
+    {"id": "c08-fmmu-ex-sm-number", "property": "C08", "expect": "C08.dev|eeprom:fmmu-index-from-FMMU_EX-position",
+     "edits": [("src/subdevice/configuration.rs", """                .position(|fmmu| fmmu.sync_manager == sync_manager_index)
+                .map(|fmmu_index| fmmu_index as u8)""", """                .find(|fmmu| fmmu.sync_manager == sync_manager_index)
+                .map(|fmmu| fmmu.sync_manager)""")]},
+    {"id": "n-c08-adjacency-if-let", "property": "C08", "neutral": True,
+     "edits": [("src/subdevice/configuration.rs", """                let (fmmu_index, extend_existing) = match current_fmmu {
+                    Some((fmmu_index, mapped_end))
+                        if mapped_end == sm_config.physical_start_address =>
+                    {
+                        (fmmu_index, true)
+                    }
+                    _ => {
+                        let fmmu_index = fmmus.next().ok_or(Error::NotFound {
+                            item: Item::Fmmu,
+                            index: None,
+                        })?;
+
+                        (fmmu_index, false)
+                    }
+                };
+""", """                let contiguous = current_fmmu
+                    .filter(|(_, mapped_end)| sm_config.physical_start_address == *mapped_end);
+
+                let (fmmu_index, extend_existing) = if let Some((fmmu_index, _)) = contiguous {
+                    (fmmu_index, true)
+                } else {
+                    let fmmu_index = fmmus.next().ok_or(Error::NotFound {
+                        item: Item::Fmmu,
+                        index: None,
+                    })?;
+
+                    (fmmu_index, false)
+                };
 """)]},
     {"id": "n-c08-rename", "property": "C08", "neutral": True,
      "edits": [("src/subdevice/configuration.rs", "        *global_offset = global_offset.increment_byte_aligned(sm_bit_len);", "        let advanced = global_offset.increment_byte_aligned(sm_bit_len);\n        *global_offset = advanced;")]},
